@@ -219,6 +219,9 @@ func leanTypeM(t types.Type) (string, error) {
 	if lt, ok := k01dec2Type(t); ok { // wp k01dec2 (ext_k01dec2.go): func(int, int) bool as an abstract predicate
 		return lt, nil
 	}
+	if lt, ok := k11b2Type(t); ok { // wp k11b2 (ext_k11b2.go): intSet
+		return lt, nil
+	}
 	switch u := t.Underlying().(type) {
 	case *types.Basic:
 		if u.Info()&types.IsString != 0 {
@@ -380,6 +383,9 @@ func (fc *fnCtx) lexpr(ex ast.Expr) (string, error) {
 	if s, handled, err := fc.dmxLexpr(ex); handled { // wp dmmirror (ext_dmmirror.go)
 		return s, err
 	}
+	if s, handled, err := fc.k11b2Lexpr(ex); handled { // wp k11b2 (ext_k11b2.go): append, []byte(..)
+		return s, err
+	}
 	if tv, ok := fc.p.TypesInfo.Types[ex]; ok && tv.Value != nil && tv.Value.Kind() == constant.String {
 		if id, ok := ex.(*ast.Ident); ok {
 			return fc.table(id.Name, stringBytes(constant.StringVal(tv.Value))), nil
@@ -509,6 +515,9 @@ func (fc *fnCtx) mexpr(ex ast.Expr) (string, bool, error) {
 		return s, true, err
 	}
 	if s, handled, err := fc.k01dec2Mexpr(ex); handled { // wp k01dec2 (ext_k01dec2.go): call of a function-valued field
+		return s, true, err
+	}
+	if s, handled, err := fc.k11b2Mexpr(ex); handled { // wp k11b2 (ext_k11b2.go)
 		return s, true, err
 	}
 	switch x := ex.(type) {
@@ -1235,6 +1244,9 @@ func (fc *fnCtx) mblock(stmts []ast.Stmt, lvl int) (string, error) {
 	if text, handled, err := fc.k01dec2Stmt(s, rest, lvl); handled { // wp k01dec2 (ext_k01dec2.go)
 		return text, err
 	}
+	if text, handled, err := fc.k11b2Stmt(s, rest, lvl); handled { // wp k11b2 (ext_k11b2.go)
+		return text, err
+	}
 	switch x := s.(type) {
 	case *scopeEnd:
 		for _, n := range x.names {
@@ -1257,6 +1269,13 @@ func (fc *fnCtx) mblock(stmts []ast.Stmt, lvl int) (string, error) {
 				continue
 			}
 			if vals, handled, err := fc.k01decReturn(x, ri, r); handled { // wp k01dec: object-typed results
+				if err != nil {
+					return "", err
+				}
+				rs = append(rs, vals...)
+				continue
+			}
+			if vals, handled, err := fc.k11b2Return(ri, r); handled { // wp k11b2: nil of a [][]byte result
 				if err != nil {
 					return "", err
 				}
@@ -1827,6 +1846,9 @@ func (fc *fnCtx) massign(x *ast.AssignStmt, rest []ast.Stmt, lvl int) (string, e
 	if s, handled, err := fc.k03wAssign(x, rest, lvl); handled { // wp k03w (ext_k03w.go)
 		return s, err
 	}
+	if s, handled, err := fc.k11b2Assign(x, rest, lvl); handled { // wp k11b2 (ext_k11b2.go)
+		return s, err
+	}
 	cont := func(prefix string) (string, error) {
 		r, err := fc.mblock(rest, lvl)
 		if err != nil {
@@ -2326,6 +2348,7 @@ func assignedIn3(stmts []ast.Stmt) (assigned, declared, whole map[string]bool) {
 			case *ast.CallExpr:
 				extAssignedByCall(x, assigned, whole) // ext_k17k20.go
 				k01decAssignedByCall(x, assigned, whole) // wp k01dec
+				k11b2AssignedByCall(x, assigned, whole) // wp k11b2 (ext_k11b2.go): intSet.add
 				if curFC != nil {
 					if recv, mi, ok := curFC.methodCallee(x); ok {
 						for _, f := range mi.outs {
@@ -2414,6 +2437,7 @@ func (fc *fnCtx) usedNames(nodes []ast.Node) map[string]bool {
 		})
 	}
 	fc.dmxUsed(nodes, used) // wp dmmirror
+	fc.k11b2Used(nodes, used) // wp k11b2 (ext_k11b2.go): out variables of a returning loop body
 	return used
 }
 
@@ -3054,6 +3078,7 @@ func genFuncM(p *packages.Package, e entry) (string, error) {
 	fc := newMCtx(p, e.module, e.lean)
 	curFC = fc
 	defer func() { curFC = nil }()
+	fc.k11b2View(fd) // wp k11b2 (ext_k11b2.go): the Data Matrix mode loop as a view (BitSource parameter, the three result values)
 	var fields []*ast.Field
 	if fd.Recv != nil {
 		fields = append(fields, fd.Recv.List...)
@@ -3072,6 +3097,7 @@ func genFuncM(p *packages.Package, e entry) (string, error) {
 		return "", ferr
 	}
 	fc.k11bPrepare(fd) // wp k11b (ext_k11b.go): AST pre-pass, abstract parameters
+	fc.k11b2Prepare(fd) // wp k11b2 (ext_k11b2.go): AST pre-pass, shadowing locals renamed
 	params, gerr := fc.dmxGlobals(fd, params) // wp dmmirror: init-filled package-level tables are leading parameters
 	if gerr != nil {
 		return "", gerr
@@ -3282,6 +3308,7 @@ func genFuncM(p *packages.Package, e entry) (string, error) {
 	}
 	params = fc.k11bParams(params) // wp k11b (ext_k11b.go)
 	params = fc.k03wGlobalParams(params) // wp k03w: run-time filled package-level tables read by the body
+	params = fc.k11b2Params(params) // wp k11b2 (ext_k11b2.go): abstract parameters of the Aztec high-level decoder
 	if fc.m.fuelUsed {
 		params = append([]string{"(fuel : Nat)"}, params...)
 	}
